@@ -1146,10 +1146,31 @@ func (w *World) isMagicAtStartCond(info *types.Info, cond ast.Expr) bool {
 
 func ruleCDC7(w *World, r *Report) {
 	r.Doc("CDC-7", "vector text goes through math.Float32bits / Float32frombits and no decimal float formatting; every VADD writer takes its vector text from that encoder", 5)
-	enc := w.Func("pkg/engine", "float32SliceToHexString")
-	dec := w.Func("pkg/engine", "parseHexVector")
+	// the two halves of the codec are found by what they do: the function of pkg/engine that turns floats into their IEEE
+	// bit patterns (math.Float32bits) and the one that turns bit patterns back (math.Float32frombits) — whatever they are
+	// called, and whether the hex decoder is a function of its own or a branch of the vector parser
+	var enc, dec *FuncInfo
+	for _, fi := range w.ModuleFuncs() {
+		if relPkg(fi.Obj) != "pkg/engine" {
+			continue
+		}
+		fn := w.SSAFunc(fi.Obj)
+		if fn == nil {
+			continue
+		}
+		for _, b := range fn.Blocks {
+			for _, in := range b.Instrs {
+				if isCallTo(in, "math", "Float32bits") && enc == nil {
+					enc = fi
+				}
+				if isCallTo(in, "math", "Float32frombits") && dec == nil {
+					dec = fi
+				}
+			}
+		}
+	}
 	if enc == nil || dec == nil {
-		r.Und("CDC-7", "anchor:hex-codec", "", "anchor lost: float32SliceToHexString/parseHexVector")
+		r.Und("CDC-7", "anchor:hex-codec", "", "anchor lost: no function of pkg/engine calls math.Float32bits / math.Float32frombits")
 		return
 	}
 	calls := func(fi *FuncInfo) map[string]bool {
@@ -1170,9 +1191,22 @@ func ruleCDC7(w *World, r *Report) {
 	r.Cond(ec["math.Float32bits"], "CDC-7", "encoder:Float32bits", w.Pos(enc.Decl.Pos()), "uses math.Float32bits", "hex encoder no longer takes the IEEE bit pattern (math.Float32bits): vectors are not bit-exact in the log")
 	r.Cond(dc["math.Float32frombits"], "CDC-7", "decoder:Float32frombits", w.Pos(dec.Decl.Pos()), "uses math.Float32frombits", "hex decoder no longer rebuilds the float from its bit pattern")
 	lossy := []string{"strconv.FormatFloat", "strconv.AppendFloat", "fmt.Sprintf", "fmt.Sprint", "fmt.Fprintf", "strconv.ParseFloat"}
+	// (a decoder that is one branch of a multi-format parser may call the decimal parser in its OTHER branch: what matters
+	// is that the bit pattern handed to Float32frombits comes out of the hexadecimal integer parse)
+	bitsFromHex := false
+	for _, in := range findInstrs(w.SSAFunc(dec.Obj), func(in ssa.Instruction) bool { return isCallTo(in, "math", "Float32frombits") }) {
+		for _, rt := range append(valueRoots(in.(*ssa.Call).Call.Args[0]), in.(*ssa.Call).Call.Args[0]) {
+			if ex, ok := rt.(*ssa.Extract); ok {
+				rt = ex.Tuple
+			}
+			if pc, ok := rt.(*ssa.Call); ok && isCallTo(pc, "strconv", "ParseUint") {
+				bitsFromHex = true
+			}
+		}
+	}
 	for _, l := range lossy {
 		r.Cond(!ec[l], "CDC-7", "encoder:no-"+l, w.Pos(enc.Decl.Pos()), "not used", "vector encoder calls "+l+": decimal formatting is not bit-exact (NaN payloads, -0)")
-		r.Cond(!dc[l], "CDC-7", "decoder:no-"+l, w.Pos(dec.Decl.Pos()), "not used", "hex decoder calls "+l)
+		r.Cond(!dc[l] || bitsFromHex, "CDC-7", "decoder:no-"+l, w.Pos(dec.Decl.Pos()), "the bit pattern comes from the hexadecimal parse", "hex decoder calls "+l)
 	}
 	// the 32-bit parse width in the decoder: ParseUint(..., 16, 32)
 	dfn := w.SSAFunc(dec.Obj)
